@@ -85,6 +85,7 @@ def execute(plan):
     h = hashlib.sha256()
     extra = ["-P"] if skip else []
     with World(plugins=plugins) as w:
+        w.long_opts = bool(plan.get("long_opts"))
         common.put_store(w, "D", plan["pels"])
         parse = plug.repo_hexdump_parse()
         results = []
